@@ -7,6 +7,7 @@ import Driver.OpsFn
 import Driver.OpsFnGen
 import Driver.OpsFnGen2
 import Driver.OpsFnGen3
+import Driver.OpsFnGen4
 import Driver.OpsC03
 import Driver.OpsSym
 import Driver.OpsBot
@@ -34,6 +35,7 @@ def handlers : List Handler := [
   handleFnGen,
   handleFnGen2,
   handleFnGen3,
+  handleFnGen4,
   handleC03,
   handleSym,
   handleEval,
